@@ -398,7 +398,8 @@ CHECKS = {
         level_text="TLC checks RefDecode(RefEncode(p)) = p, the length prefix and refusal of over-long slots for every well-formed "
                    "assignment of every generic layout of <=3 fields over all field kinds (a decoder that cuts binary slots at NUL "
                    "is the negative configuration).  Every recorded real round trip is judged by TLC: WellFormed(p) => encode ok, "
-                   "decode ok, Eq(p2,p) field-wise (optional parameters as a set), header length = Len(bytes); TooLongOnly(p) => "
+                   "decode ok, Eq(p2,p) field-wise (optional parameters as a set), header length = Len(bytes) (every fourth struct "
+                   "carries a stale length member from an earlier encode); TooLongOnly(p) => "
                    "encode error",
         level_note="field values travel as octet arrays through a reflection projector keyed by the field names of Layouts.tla; the "
                    "layouts are my transcription of the documents in doc/ (tools/layouts.py cites the sections); integers are "
